@@ -240,4 +240,93 @@ theorem resume_suspend_rebase (lo vm2 g : VM) (hg : AtYield g) :
     cases tf
     simp_all [TryFrame.toRel, TryFrame.toAbs, shiftFrame]
 
+/-! ## enterNextFinallyFrame (as repaired by 8004794) -/
+
+theorem enf_top_fin (n : Nat) (vm : VM) (fs : List TryFrame) (tf : TryFrame) (cl : List Nat)
+    (h : vm.tryStack = fs ++ [tf]) (hc : tf.callStackLen = vm.callStack.length) (hfin : tf.finallyPos ≥ 0) :
+    enterNextFinallyFrameLoop [] (n + 1) vm cl =
+      (true, cl ++ (restoreStacks vm tf.iterLen tf.refLen).1,
+       { (restoreStacks vm tf.iterLen tf.refLen).2 with
+           stack := vm.stack.take tf.sp,
+           cur := { vm.cur with stash := tf.stash, pc := tf.finallyPos },
+           tryStack := fs ++ [{ tf with catchPos := -1, finallyPos := -1, finallyRet := -2 }] }) := by
+  unfold enterNextFinallyFrameLoop
+  simp [h, hc, hfin, restoreStacks]
+
+theorem enf_top_skip (n : Nat) (vm : VM) (fs : List TryFrame) (tf : TryFrame) (cl : List Nat)
+    (h : vm.tryStack = fs ++ [tf]) (hc : tf.callStackLen = vm.callStack.length) (hfin : ¬ tf.finallyPos ≥ 0) :
+    enterNextFinallyFrameLoop [] (n + 1) vm cl =
+      enterNextFinallyFrameLoop [] n { (restoreStacks vm tf.iterLen tf.refLen).2 with tryStack := fs }
+        (cl ++ (restoreStacks vm tf.iterLen tf.refLen).1) := by
+  conv => lhs; unfold enterNextFinallyFrameLoop
+  simp [h, hc, hfin, restoreStacks]
+
+/-- The frame whose finally block return(v) enters is left DEAD for `handleThrow` (catchPos = finallyPos = -1): an
+exception raised inside that finally block is dispatched to the enclosing handlers, exactly as if the frame had
+been popped — the content of repair 8004794. -/
+theorem return_finally_frame_is_dead (ex : Nat) (vm : VM) (fs : List TryFrame) (tf : TryFrame)
+    (h : vm.tryStack = fs ++ [tf]) (hc : tf.callStackLen = vm.callStack.length) (hfin : tf.finallyPos ≥ 0) :
+    (enterNextFinallyFrame [] vm).1 = true ∧
+    handleThrow ex (enterNextFinallyFrame [] vm).2.2
+      = handleThrow ex { (enterNextFinallyFrame [] vm).2.2 with tryStack := fs } := by
+  have e : enterNextFinallyFrame [] vm = enterNextFinallyFrameLoop [] (fs.length + 1) vm [] := by
+    simp [enterNextFinallyFrame, h]
+  rw [e, enf_top_fin fs.length vm fs tf [] h hc hfin]
+  refine ⟨rfl, ?_⟩
+  exact handleThrow_dead_pops ex _ fs _ rfl (by simp [TryFrame.dead])
+
+/-- Regression lemma about the OLD marking (catchPos = tryPanicMarker, before 8004794): `handleThrow` stopped at that
+frame and reported the exception as leaving the generator, whatever handlers enclosed it. -/
+theorem old_marking_escapes_prefix_witness (ex : Nat) (vm : VM) (fs : List TryFrame) (tf : TryFrame)
+    (h : vm.tryStack = fs ++ [{ tf with catchPos := tryPanicMarker, finallyPos := -1, finallyRet := -2 }]) :
+    (handleThrow ex vm).1 = .uncaught := by
+  rw [handleThrow_outcome_top ex vm fs _ h (by simp [TryFrame.dead, tryPanicMarker])]
+  simp [outcomeOf]
+
+/-! ### Every well-formed vm is a re-based generator part -/
+
+def lowerOf (vm : VM) (T I R S C : Nat) : VM :=
+  { cur := default, stack := vm.stack.take S, callStack := vm.callStack.take C, iterStack := vm.iterStack.take I,
+    refStack := vm.refStack.take R, tryStack := vm.tryStack.take T }
+
+def genOf (vm : VM) (T I R S C : Nat) : VM :=
+  { cur := { vm.cur with sb := vm.cur.sb - S }
+    stack := vm.stack.drop S
+    callStack := (vm.callStack.drop C).map (fun c => { c with sb := c.sb - S })
+    iterStack := vm.iterStack.drop I
+    refStack := vm.refStack.drop R
+    tryStack := (vm.tryStack.drop T).map (fun tf =>
+      { tf with callStackLen := tf.callStackLen - C, iterLen := tf.iterLen - I, refLen := tf.refLen - R, sp := tf.sp - S }) }
+
+/-- Any vm whose generator-owned try frames record lengths at or above the bases `(T, I, R, S, C)` IS `rebase lo g`
+for its lower part `lo` and its relative generator part `g`: the `rebase` theorems apply to every such vm. -/
+theorem rebase_decompose (vm : VM) (T I R S C : Nat)
+    (hS : S ≤ vm.stack.length) (hC : C ≤ vm.callStack.length) (hI : I ≤ vm.iterStack.length) (hR : R ≤ vm.refStack.length)
+    (hf : ∀ tf ∈ vm.tryStack.drop T, C ≤ tf.callStackLen ∧ I ≤ tf.iterLen ∧ R ≤ tf.refLen ∧ S ≤ tf.sp) :
+    rebase (lowerOf vm T I R S C) (genOf vm T I R S C) = vm := by
+  cases vm with
+  | mk cur stack callStack iterStack refStack tryStack =>
+    simp only [rebase, lowerOf, genOf, shiftCtx, List.length_take, List.map_map, List.take_append_drop] at *
+    have e1 : min S stack.length = S := Nat.min_eq_left hS
+    have e2 : min C callStack.length = C := Nat.min_eq_left hC
+    have e3 : min I iterStack.length = I := Nat.min_eq_left hI
+    have e4 : min R refStack.length = R := Nat.min_eq_left hR
+    simp only [e1]
+    congr 1
+    · cases cur; simp
+    · conv => rhs; rw [← List.take_append_drop C callStack]
+      congr 1
+      conv => rhs; rw [← List.map_id (List.drop C callStack)]
+      apply List.map_congr_left
+      intro c _
+      cases c; simp [shiftCtx]
+    · conv => rhs; rw [← List.take_append_drop T tryStack]
+      congr 1
+      conv => rhs; rw [← List.map_id (List.drop T tryStack)]
+      apply List.map_congr_left
+      intro tf htf
+      have := hf tf htf
+      cases tf
+      simp_all [shiftFrame]
+
 end GojaModel.C09.Mech
